@@ -4,6 +4,7 @@ use crate::trace::Trace;
 
 pub mod c08;
 pub mod c11;
+pub mod c12;
 pub mod c14;
 pub mod common;
 
@@ -15,6 +16,7 @@ pub fn make_checker(trace: &Trace, session: usize) -> Box<dyn Checker> {
         "C14" => Box::new(c14::C14Checker::new(trace, session)),
         "C11" => Box::new(c11::C11Checker::new(trace, session)),
         "C08" => Box::new(c08::C08Checker::new(trace, session)),
+        "C12" => Box::new(c12::C12Checker::new(trace, session)),
         _ => Box::new(Nop),
     }
 }
